@@ -12,6 +12,13 @@ destination content type `δ` with an arbitrary per-destination step (`DestOps`:
 `Calculate` does inside one destination is C02's destination-level part and C03), and every
 history of updates / withdrawals / deletions from the empty table.
 
+"Readers get snapshots": in this model every answer (`get`, `entries`, `select`, `info`, `bests`) is a
+VALUE computed from the table at the time of asking, so an answer taken at time t is a function of
+the content at time t only (`observations_depend_on_content_only`) and cannot change afterwards.  On
+the Go side that is a property of the code (copies in `snapshot`, `Select`, `Calculate`), tied by
+the harness oracle `c02t-handed-out-value-changed:<accessor>`: every value handed out by a reader
+is kept over the following operations and must keep rendering as it did when it was handed out.
+
 The tie between this model and the Go code is the correspondence run (`./check C02T`), not a proof.
 -/
 import Lemmas.Table
